@@ -132,6 +132,8 @@ def run(res):
     n_text = 0
     for (c, i, m) in r["mismatches"]:
         f = c.split("\t")
+        if f[0] == "strexpr":
+            continue   # the stringifier's printer: C14
         aspects = exprtext.classify(c, i, m) if f[0] == "attrgen" else {"value"}
         if not (aspects & {"value", "other"}):
             continue   # guard / l-value / binding-map deviations are reported by C06 / C11 / C07
